@@ -36,7 +36,7 @@ let o_mt = function
 let o_folder = function
 | ODoc (_, f, _, _, _) -> f
 
-type topdoc = { t_root : odoc; t_thumb : str option;
+type topdoc = { t_root : odoc; t_thumb : (str * str) option;
                 t_extras : ((str * str) * str option) list }
 
 type manifest = (str * str) list
@@ -358,12 +358,12 @@ let save_m t =
     match t.t_thumb with
     | Some b ->
       { e_name = sTHUMB; e_stored = false; e_extra = []; e_data = (DBytes
-        b) } :: []
+        (fst b)) } :: []
     | None -> []
   in
   let mt =
     match t.t_thumb with
-    | Some _ -> (sTHUMBDIR, []) :: ((sTHUMB, []) :: [])
+    | Some b -> (sTHUMBDIR, []) :: ((sTHUMB, (snd b)) :: [])
     | None -> []
   in
   let xs = filter (fun x -> negb (str_eqb (fst (fst x)) sSIG)) t.t_extras in
@@ -652,12 +652,12 @@ let load_m m member mimetype root_settings obj_settings =
       | _ -> []) m
   in
   let thumb =
-    if existsb (fun e ->
-         match classify m (fst e) with
-         | IsThumbnail -> true
-         | _ -> false) m
-    then Some (member sTHUMB)
-    else None
+    match find (fun e ->
+            match classify m (fst e) with
+            | IsThumbnail -> true
+            | _ -> false) m with
+    | Some e -> Some ((member sTHUMB), (snd e))
+    | None -> None
   in
   let extras =
     flat_map (fun e ->
